@@ -334,6 +334,11 @@ func main() {
 			if replayDm(raw, &dmf, w, &samples) { // DiffManager-layer case (dm.go)
 				continue
 			}
+			var cd concDesc
+			if json.Unmarshal(raw, &cd) == nil && cd.Kind == "concurrent_set_remove" {
+				runConcurrent(cd.Seed-uint64(cd.Trial), w, cd.Trial)
+				continue
+			}
 			var d struct {
 				Spec spec `json:"spec"`
 			}
@@ -402,6 +407,10 @@ func main() {
 		}
 		s.Shape = "prod_boundary"
 		do(s)
+	}
+	// concurrent Set / RemoveId on one index (conc.go; oracle-only)
+	if !onlyDm {
+		runConcurrent(o.Seed*1000003+17, w, -1)
 	}
 	// DiffManager layer (dm.go): real space storage + head storage + deletion state + DiffManager
 	runDm(o, r, w, &samples)
